@@ -30,3 +30,8 @@ PROPS = {
 }
 
 NOT_YET = {}
+
+# per-property entries kept in bin/props.d/<Cxx>.py.txt (one `"Cxx": {...},` dict item each)
+import glob as _glob, os as _os
+for _f in sorted(_glob.glob(_os.path.join(_os.path.dirname(_os.path.abspath(__file__)), "props.d", "*.py.txt"))):
+    PROPS.update(eval("{" + open(_f, encoding="utf-8").read() + "}", {"TB_COMMON": TB_COMMON}))
